@@ -156,6 +156,45 @@ fn strat(t: Tier) -> proptest::strategy::BoxedStrategy<ValidCase> {
     }
 }
 
+pub fn eval_frag(c: &crate::fragcase::FragCase) -> Outcome {
+    use crate::fragcase::*;
+    let mut o = Outcome::default();
+    let mut c = c.clone();
+    // always look at the init segment at least once
+    c.ops.push(FGene::Init);
+    c.ops.push(FGene::Flush);
+    let l = lower(&c);
+    let mut scratch = Outcome::default();
+    let t = run_and_check(&mut scratch, &l, false);
+    if let Some(p) = &t.panic {
+        o.aborted_by_panic = Some(p.clone());
+        return o;
+    }
+    check_structure(&mut o, &t);
+    o.nontrivial = t.emitted.len() >= 2;
+    if t.emitted.iter().any(|e| e.expect.iter().any(|s| s.data.is_empty())) {
+        o.class("empty_sample");
+    }
+    if t.rejected_writes > 0 {
+        o.class("rejected_write");
+    }
+    if c.pset_len.0 > 1000 || c.pset_len.1 > 1000 || c.pset_len.2 > 1000 {
+        o.class("long_parameter_set");
+    }
+    if c.pset_len.0 == 0 || c.pset_len.1 == 0 {
+        o.class("empty_parameter_set");
+    }
+    o.class(["h264", "h265", "av1", "vp9"][(c.codec % 4) as usize]);
+    o
+}
+
+fn strat_frag(t: Tier) -> proptest::strategy::BoxedStrategy<crate::fragcase::FragCase> {
+    match t {
+        Tier::Quick => crate::fragcase::frag_case_strategy(30).boxed(),
+        Tier::Thorough => crate::fragcase::frag_case_strategy(80).boxed(),
+    }
+}
+
 pub fn def() -> PropertyDef {
     PropertyDef {
         id: "C02",
@@ -165,6 +204,9 @@ pub fn def() -> PropertyDef {
                box walker that fails on one byte of slack or overrun and checks mandatory boxes and table counts; \
                non-trivial = at least one sample plus audio, metadata, B-frames or >= 2 fragments",
         assumptions: &["the strict box grammar in src/reader.rs follows ISO/IEC 14496-12 container/FullBox/sample-entry nesting"],
-        subs: vec![Box::new(PSub { name: "progressive", quick: 4000, thorough: 120_000, strat, eval })],
+        subs: vec![
+            Box::new(PSub { name: "progressive", quick: 4000, thorough: 120_000, strat, eval }),
+            Box::new(PSub { name: "fragmented", quick: 3000, thorough: 100_000, strat: strat_frag, eval: eval_frag }),
+        ],
     }
 }
